@@ -55,7 +55,7 @@ type Solver struct {
 	dead    bool
 }
 
-var z3Path = "z3"
+var z3Path = "z3-new"
 
 // check-sat-using runs a (non-incremental) tactic on the current assertion
 // stack; it is several times faster than z3's incremental core on the
@@ -82,6 +82,9 @@ func (s *Solver) start() {
 	}
 	s.in = in
 	s.out = bufio.NewReaderSize(out, 1<<16)
+	if d := os.Getenv("GOSMT_LOG"); d != "" && s.logf == nil {
+		s.logf, _ = os.Create(fmt.Sprintf("%s/z3-%d.smt2", d, time.Now().UnixNano()))
+	}
 	s.em = NewEmitter()
 	s.stack = nil
 	s.dead = false
@@ -258,19 +261,73 @@ func (s *Solver) getValues(want map[string]*Term) Model {
 	if len(keys) == 0 {
 		return m
 	}
-	// one get-value per term keeps parsing trivial
-	for _, k := range keys {
-		fmt.Fprintf(&sb, "(get-value (%s))\n", want[k].ref())
+	// batches keep the answers parseable and bounded in size
+	const batch = 64
+	for i := 0; i < len(keys); i += batch {
+		j := i + batch
+		if j > len(keys) {
+			j = len(keys)
+		}
+		sb.WriteString("(get-value (")
+		for _, k := range keys[i:j] {
+			sb.WriteString(want[k].ref())
+			sb.WriteByte(' ')
+		}
+		sb.WriteString("))\n")
 	}
 	s.send(sb.String())
-	for _, k := range keys {
+	for i := 0; i < len(keys); i += batch {
+		j := i + batch
+		if j > len(keys) {
+			j = len(keys)
+		}
 		txt := s.readSexp()
-		v, ok := parseValue(txt)
-		if ok {
-			m[k] = v
+		vals := parseValueList(txt)
+		if len(vals) != j-i {
+			// fall back: unparseable answer => no values for this batch
+			continue
+		}
+		for n, k := range keys[i:j] {
+			m[k] = vals[n]
 		}
 	}
 	return m
+}
+
+// parseValueList parses "((t1 v1) (t2 v2) ...)" into the list of values.
+func parseValueList(txt string) []uint64 {
+	var out []uint64
+	depth := 0
+	i := 0
+	n := len(txt)
+	pairStart := -1
+	for i < n {
+		c := txt[i]
+		switch c {
+		case '|':
+			i++
+			for i < n && txt[i] != '|' {
+				i++
+			}
+		case '(':
+			depth++
+			if depth == 2 {
+				pairStart = i
+			}
+		case ')':
+			if depth == 2 && pairStart >= 0 {
+				if v, ok := parseValue("(" + txt[pairStart:i+1] + ")"); ok {
+					out = append(out, v)
+				} else {
+					return nil
+				}
+				pairStart = -1
+			}
+			depth--
+		}
+		i++
+	}
+	return out
 }
 
 // readSexp reads one balanced s-expression (possibly spanning lines).
